@@ -71,7 +71,9 @@ pub trait Dom: Sized + Clone + 'static {
     fn ty() -> Ty;
     fn values(cx: &mut ValCx) -> Vec<Self>;
     fn to_val(&self) -> Val;
-    /// Same skeleton, every part that ε-copy returns as a borrow made `k` times longer.
+    /// Same skeleton, every part that ε-copy returns as a borrow made `k` times longer. With
+    /// the [`REPEAT`] bit set in `k`: every OUTERMOST sequence (zero-copy or deep) and string
+    /// gets its items repeated `k & !REPEAT` times instead (long sequences of deep items).
     fn scale(&self, _k: usize) -> Self { self.clone() }
     /// Heap ranges owned by this value (address, bytes).
     fn owned(&self, _out: &mut Vec<(usize, usize)>) {}
@@ -250,14 +252,14 @@ impl Dom for String {
     fn ty() -> Ty { Ty::String }
     fn values(cx: &mut ValCx) -> Vec<Self> { strings(cx) }
     fn to_val(&self) -> Val { Val::Str(self.clone()) }
-    fn scale(&self, k: usize) -> Self { self.repeat(k) }
+    fn scale(&self, k: usize) -> Self { self.repeat(k & !REPEAT) }
     fn owned(&self, out: &mut Vec<(usize, usize)>) { if self.capacity() > 0 { out.push((self.as_ptr() as usize, self.capacity())); } }
 }
 impl Dom for Box<str> {
     fn ty() -> Ty { Ty::BoxStr }
     fn values(cx: &mut ValCx) -> Vec<Self> { strings(cx).into_iter().map(|s| s.into_boxed_str()).collect() }
     fn to_val(&self) -> Val { Val::Str(self.to_string()) }
-    fn scale(&self, k: usize) -> Self { self.repeat(k).into_boxed_str() }
+    fn scale(&self, k: usize) -> Self { self.repeat(k & !REPEAT).into_boxed_str() }
     fn owned(&self, out: &mut Vec<(usize, usize)>) { if self.len() > 0 { out.push((self.as_ptr() as usize, self.len())); } }
 }
 impl<'a> EpsView for &'a str {
@@ -293,7 +295,16 @@ fn seq_values<T: Dom>(cx: &mut ValCx) -> Vec<Vec<T>> {
     out
 }
 
+/// Mode bit of [`Dom::scale`].
+pub const REPEAT: usize = 1 << 40;
+
 fn scale_seq<T: Dom>(items: &[T], k: usize) -> Vec<T> {
+    if k & REPEAT != 0 {
+        let k = k & !REPEAT;
+        let mut v = Vec::with_capacity(items.len() * k);
+        for _ in 0..k { v.extend(items.iter().cloned()); }
+        return v;
+    }
     if T::ty().is_zero() {
         let mut v = Vec::with_capacity(items.len() * k);
         for _ in 0..k { v.extend(items.iter().cloned()); }
